@@ -256,6 +256,36 @@ func c05One(env *Env, m *wvlib.Model, c *C05Case) {
 	}
 	ffImpl := ferr == nil
 	_ = ffImpl
+	if c.Seed%4 == 0 {
+		// the signature VALUE used above is used again after the build was updated in place (same sizes, so the same
+		// container) and re-signed: its Hashes are replaced, once on a copy of the struct and once on the value itself
+		b2 := b.Clone()
+		changed := false
+		for i := range b2.Entries {
+			if b2.Entries[i].Kind == 'f' && len(b2.Entries[i].Data) > 0 {
+				d := b2.Entries[i].Data
+				d[(len(d)-1)/2] ^= 0x3c
+				changed = true
+			}
+		}
+		if sig2, err := signBuild(base+"/resigned", b2); err == nil && changed && len(sig2.Hashes) == len(sig.Hashes) {
+			derived := *sig
+			derived.Hashes = sig2.Hashes
+			for round, sg := range []*pwr.SignatureInfo{&derived, sig} {
+				if round == 1 {
+					sig.Hashes = sig2.Hashes
+				}
+				if err := pwr.AssertValid(base+"/resigned", sg); err != nil {
+					env.R.Violate("valid-tree-wounded:re-signed", fmt.Sprintf("round %d: the build just signed does not validate against its own signature: %v", round, err), c)
+				}
+				if err := pwr.AssertValid(base+"/signed", sg); err == nil {
+					env.R.Violate("fail-fast-declares-valid:re-signed", fmt.Sprintf("round %d: the previous build (every non-empty file differs) validates against the new signature", round), c)
+				}
+			}
+			env.R.Count("re-signed-signature-value-reused", 1)
+		}
+		os.RemoveAll(base + "/resigned")
+	}
 	env.R.Eval(c.Seed, !same)
 	for _, d := range desc {
 		env.R.Count("damage:"+strings.Fields(d)[0], 1)
